@@ -173,6 +173,15 @@ fn translate_block(
         let instruction = instructions.get(0).unwrap();
 
         if let capstone::InstrIdArch::MIPS(instruction_id) = instruction.id {
+            // capstone gives the DSP, MSA and floating-point forms (`addu.qb`,
+            // `mul.ph`, `add.s`) the ids of the integer instructions: only
+            // the plain forms are lifted below, the others are unhandled
+            let instruction_id = if instruction.mnemonic.contains('.') {
+                capstone::mips_insn::MIPS_INS_INVALID
+            } else {
+                instruction_id
+            };
+
             let mut instruction_graph = ControlFlowGraph::new();
 
             match instruction_id {
